@@ -16,7 +16,8 @@ def names_with_hydrogens(draw, n, level):
 
 
 @st.composite
-def molecule_pair(draw, max_atoms=40, kinds_big=("tree", "chain", "star", "cyclic"), multi_residue=False):
+def molecule_pair(draw, max_atoms=40, kinds_big=("tree", "chain", "star", "cyclic"), multi_residue=False,
+                  similar_names=False):
     """Start / end specs: the smaller one (ties: the end) is a connected tree (mobile),
     the other any connected-or-not graph with >=1 bond and >=1 non-hydrogen atom."""
     relation = draw(st.sampled_from(["start-smaller", "start-smaller", "start-larger", "equal"]))
@@ -31,7 +32,12 @@ def molecule_pair(draw, max_atoms=40, kinds_big=("tree", "chain", "star", "cycli
     ns, ne = (small, big) if relation == "start-smaller" else (big, small)
     nres = draw(st.integers(2, 3)) if multi_residue and min(ns, ne) >= 3 else 1
 
-    def topo(name, n, mobile):
+    # corresponding residues whose names differ but contain one another (LYS / LYSH): RS0 against RS0H
+    suffix = {"start": "", "end": ""}
+    if similar_names and nres > 1 and draw(st.booleans()):
+        suffix["end" if draw(st.booleans()) else "start"] = "H"
+
+    def topo(name, n, mobile, which="start"):
         kinds = ("tree", "tree", "chain", "star") if mobile else kinds_big
         if not mobile and draw(st.integers(0, 5)) == 0 and n >= 4:
             kinds = ("forest",)
@@ -43,13 +49,13 @@ def molecule_pair(draw, max_atoms=40, kinds_big=("tree", "chain", "star", "cycli
         k = 0
         res = []
         for r, (rn, ri, old) in enumerate(top["residues"]):
-            res.append(["RS%d" % r if multi_residue else rn, ri, names[k:k + len(old)]])
+            res.append(["RS%d%s" % (r, suffix[which]) if multi_residue else rn, ri, names[k:k + len(old)]])
             k += len(old)
         top["residues"] = res
         return top
     mobile_is_start = ns < ne
     start = topo("SPEC", ns, mobile_is_start)
-    end = topo("SPEC", ne, not mobile_is_start)
+    end = topo("SPEC", ne, not mobile_is_start, "end")
     rng = np.random.default_rng(draw(gen.SEEDS))
     spos = gen.walk_geometry(ns, start["edges"], rng, lo=0.15, hi=0.5)
     epos = gen.walk_geometry(ne, end["edges"], rng, lo=0.1, hi=0.3) + rng.uniform(-3, 3, 3)
